@@ -107,6 +107,17 @@ def _normalise(text):
                 moves[cands[0]] = home
     for src in sorted(moves, key=len, reverse=True):
         text = re.sub(r"(?<![A-Za-z0-9_:])" + re.escape(src) + r"(?![A-Za-z0-9_])", moves[src], text)
+    # (3) the body of a provided trait method that was moved into the trait's only (blanket) implementation
+    # (`impl<A, S> SpawnableService<S> for A { fn from_registry_and_spawn() { .. } }`) keeps the name it has in the pinned tree
+    provided = set(homes.get("provided", {}))
+    fn_defs = {f["def"] for f in d.get("fns", [])}
+    for fd in sorted(fn_defs, key=len, reverse=True):
+        m = re.match(r"^<([A-Z][A-Za-z0-9]?) as ([a-z_][A-Za-z0-9_:]*[A-Za-z0-9_])(<.*>)?>::([a-z_][A-Za-z0-9_]*)$", fd)
+        if not m:
+            continue
+        target = "%s::%s" % (moves.get(m.group(2), m.group(2)), m.group(4))
+        if target in provided and target not in fn_defs:
+            text = text.replace(json.dumps(fd)[1:-1], target)
     return text
 
 
